@@ -35,7 +35,9 @@ class Suci(Stream):
                 mnc = rng.digits(mnclen) if not rng.chance(1, 5) else rng.choice(["0" * mnclen, "9" * mnclen, "0" * (mnclen - 1) + "7", "7" + "0" * (mnclen - 1)])
                 msin = rng.digits(1 + (i // 2) % 10)
                 cases.append({"mcc": mcc, "mnc": mnc, "msin": msin, "imsi": mcc + mnc + msin, "mnclen": mnclen,
-                              "ngap": "1" if (i % 4 == 0 or tier != "quick") else ""})
+                              "ngap": "1" if (i % 4 == 0 or tier != "quick") else "",
+                              # every third identity is the one the emulator itself forms: the SUPI of CreateUE(imsi, 0, ..)
+                              "via": "createue" if i % 3 == 1 else ""})
         else:
             alpha = "0123456789abcdefABCDEFxyz :"
             for i in range(200 if tier == "quick" else 3000):
@@ -45,7 +47,10 @@ class Suci(Stream):
         return cases
 
     def go_case(self, c):
-        return {"imsi": c["imsi"], "mnclen": c["mnclen"], "ngap": c["ngap"]}
+        d = {"imsi": c["imsi"], "mnclen": c["mnclen"], "ngap": c["ngap"]}
+        if c.get("via"):
+            d["via"] = c["via"]
+        return d
 
     def classify(self, c, o):
         if not self.wellformed:
